@@ -152,3 +152,87 @@ def replay_case(path, pid, compare=D.strip_far):
     print("textX  :", common.canon(compare(real)))
     print("Peg.tla:", common.canon(compare(exp)))
     return 0 if common.canon(compare(real)) == common.canon(compare(exp)) else 1
+
+
+# ----------------------------------------------------------------------------- bounded universes (MC_Peg.tla)
+MC_INVARIANTS = ["MemoTransparent", "WsInsertion", "CaseInsensitive", "AutoKwd", "NoValueLost",
+                 "OnlyCommonObjects", "SpansExact"]
+
+
+def universe(rep, family, depth=1, emit=True):
+    """(M) + enumeration: model-check MC_Peg for `family` (sharded), return the emitted universe
+    [(g, cfg, inputs, outs)] -- the theorems are checked on every grammar in the same runs."""
+    from concurrent.futures import ThreadPoolExecutor
+    n = 16 if tlc.NCPU >= 16 else 8 if tlc.NCPU >= 8 else 4 if tlc.NCPU >= 4 else 1
+    if depth == 1 and family in ("ops",):
+        n = min(n, 4)
+
+    def one(k):
+        return tlc.model_check("MC_Peg", env=dict(VT_FAMILY=family, VT_DEPTH=str(depth), VT_SHARD=str(k),
+                                                   VT_NSHARDS=str(n), VT_EMIT="1" if emit else "0"),
+                               workers=1, timeout=3000)
+
+    with ThreadPoolExecutor(max_workers=min(n, tlc.NCPU)) as ex:
+        rs = list(ex.map(one, range(n)))
+    out, inputs = [], None
+    for k, r in enumerate(rs):
+        tlc.require_ok(r, f"MC_Peg family={family} depth={depth} shard={k}")
+        rep.add_mc(f"MC_Peg[{family},d{depth},shard {k}/{n}]", r, MC_INVARIANTS)
+        for x in r.results("INPUTS"):
+            inputs = x["inputs"]
+        out += r.results("CASE")
+    return out, inputs
+
+
+def judge_universe(rep, pid, family, depth=1, compare=D.strip_far, sample=None, rng=None, cfg_over=None):
+    """Replay the whole emitted universe (or a seeded sample of its grammars) into textX."""
+    uni, inputs = universe(rep, family, depth)
+    if sample is not None and len(uni) > sample:
+        uni = rng.sample(uni, sample)
+    mmcache = MMCache()
+    mism = []
+    n = 0
+    for u in uni:
+        b = mmcache.get(u["g"], u["cfg"])
+        if isinstance(b, Exception):
+            rep.violation(dict(grammar=G.render_grammar(u["g"]), cfg=u["cfg"], error=f"{type(b).__name__}: {b}"),
+                          f"textX refuses a grammar of the fragment: {type(b).__name__}: {str(b)[:200]}")
+            continue
+        for i, s in enumerate(inputs):
+            exp = u["outs"][i]
+            real = real_outcome(b, G.text(s))
+            n += 1
+            if common.canon(compare(real)) == common.canon(compare(exp)):
+                nt = nontrivial(exp)
+                rep.passed(dict(grammar=b.text, input=G.text(s), outcome=compare(exp)) if nt and len(rep.samples) < 4 else None,
+                           nontrivial=False)
+                if nt:
+                    rep.nontrivial.add(common.digest([u["gi"], family, depth, s]))
+            else:
+                mism.append(dict(id=len(mism), g=u["g"], cfg=u["cfg"], s=s, real=real, exp=exp))
+    # mismatches: explained by a listed deviation?
+    od = open_devs(pid)
+    if mism and od:
+        cases = [dict(id=m["id"], g=m["g"], cfg=m["cfg"], s=m["s"], devs=[[d] for _, d in od] + [sorted({d for _, d in od})])
+                 for m in mism]
+        res, st = tlc.oracle("PegOracle", cases)
+        rep.add_oracle("PegOracle[deviations]", st)
+    for m in mism:
+        fid = None
+        if od:
+            outs = res[m["id"]]["out"]
+            for j, (f, _d) in enumerate(od):
+                if common.canon(compare(outs[j])) == common.canon(compare(m["real"])):
+                    fid = f
+                    break
+            if fid is None and common.canon(compare(outs[-1])) == common.canon(compare(m["real"])):
+                fid = od[0][0]
+        c = dict(g=m["g"], cfg=m["cfg"], s=m["s"])
+        if fid:
+            rep.known_finding(fid, describe(c))
+        else:
+            rep.violation(dict(describe(c), raw=c, observed=compare(m["real"]), expected=compare(m["exp"])),
+                          f"{family}: grammar {G.render_grammar(m['g']).strip()!r} input {G.text(m['s'])!r}: textX gives "
+                          f"{common.canon(compare(m['real']))[:260]} but Peg.tla prescribes {common.canon(compare(m['exp']))[:260]}")
+    rep.bounds[f"universe_{family}_d{depth}"] = dict(grammars=len(uni), inputs=len(inputs), compared=n)
+    return n
